@@ -113,6 +113,11 @@ func TestC10(t *testing.T) {
 			if err != nil {
 				w.Failf("visitor-spurious-error", "Visitor returned %v although no callback failed", err)
 			}
+			for id := range parts {
+				if id < 0 || id >= shards {
+					w.Failf("visitor-shard-id", "Visitor(s%d, shards=%d) called the callback with shard id %d", i, shards, id)
+				}
+			}
 			got := ConcatShards(parts)
 			if !equalSeq(got, s.content) {
 				w.Failf("visitor-content", "Visitor(s%d sn=%d, shards=%d, conc=%d): concatenation of the shards differs from the snapshot content\n%s\nshards: %v",
